@@ -461,7 +461,21 @@ Inductive case :=
     back through get_status and snapshot(): [lost] = sets the writer itself could not see (clause 83),
     [bad] = well-formed sets that were not acknowledged with a result (clause 84).  In the atomic-store
     model ([C18_conc_loads_were_stored], [C18_conc_last_store_wins]) both are necessarily zero. *)
-| CRace (rounds : Z) (lost : list Z) (bad : list Z).
+| CRace (rounds : Z) (lost : list Z) (bad : list Z)
+(** the REAL Unix control socket (src/control_socket.rs): the same non-subscription request lines are
+    written to a live socket in a few arbitrary chunks (several lines per write, writes ending mid-line)
+    and fed one by one to the stdin dispatcher on a twin configuration; [stdin] / [sock] are the response
+    lines of either side in order, [snaps_equal] whether both configurations end in the same snapshot.
+    Clause 85: the socket does not answer what stdin answers (a request with an id got no response or a
+    different one); clause 86: a line was applied on one side only. *)
+| CSock (stdin sock : list json) (snaps_equal : bool).
+
+Fixpoint resp_same_list (a b : list json) : bool :=
+  match a, b with
+  | [], [] => true
+  | x :: a', y :: b' => resp_eqv (Some x) (Some y) && resp_same_list a' b'
+  | _, _ => false
+  end.
 
 Definition check_case (c : case) : N :=
   match c with
@@ -490,6 +504,9 @@ Definition check_case (c : case) : N :=
   | CRace rounds lost bad =>
       if negb (forallb (Z.eqb 0) lost) then (1 + 2 + 4 * 83)%N
       else if negb (forallb (Z.eqb 0) bad) then (1 + 2 + 4 * 84)%N else 0%N
+  | CSock a b eqs =>
+      if negb (resp_same_list a b) then (1 + 2 + 4 * 85)%N
+      else if negb eqs then (1 + 2 + 4 * 86)%N else 0%N
   end.
 
 (** case files are written with string literals; keep this last *)
